@@ -993,3 +993,77 @@ def rule_getter_protocol(check, rule):
             check.holds(rule, site_of(init, c), 'the default getter forwards original= as received', key=key)
     if not found:
         check.inconclusive(rule, site_of(init, init.node), 'default getter not found in OverrideableDataDesc.__init__', key=key)
+
+
+def _cache_attr(repo):
+    """name of the mapping OverrideableDataDesc.__get__ stores bound copies in (`self.<name>[func] = ret`)"""
+    get = repo.func('_util:OverrideableDataDesc.__get__')
+    selfn = get.params()[0][0]
+    for n in ast.walk(get.node):
+        if isinstance(n, ast.Subscript) and isinstance(n.ctx, ast.Store) and isinstance(n.value, ast.Attribute) \
+                and isinstance(n.value.value, ast.Name) and n.value.value.id == selfn:
+            return n.value.attr
+    return None
+
+
+def rule_reprepare_invalidates_cache(check, rule):
+    """C18.R7: the bound copies a translator hands out are prepared once, from the signature its function advertised at that moment,
+    and cached per bound function.  Whoever re-prepares an existing translator because that signature changed (annotate) must drop
+    those copies too, or an instance bound before the change keeps the old signature while a fresh instance shows the new one."""
+    repo = check.repo
+    cache = _cache_attr(repo)
+    if cache is None:
+        check.holds(rule, '-', 'the descriptor keeps no cache of bound copies', key='reprepare|no-cache', nontrivial=False)
+        return
+    prep = repo.func(PT + '._prepare')
+    selfp = prep.params()[0][0]
+    # does _prepare itself drop the cache?
+    inside = False
+    for n in ast.walk(prep.node):
+        if isinstance(n, ast.Call) and isinstance(n.func, ast.Attribute) and n.func.attr == 'clear' and norm(n.func.value) == '%s.%s' % (selfp, cache):
+            inside = True
+        if isinstance(n, ast.Attribute) and isinstance(n.ctx, ast.Store) and n.attr == cache and norm(n.value) == selfp:
+            inside = True
+    n_sites = 0
+    for fi in repo.all_funcs():
+        if fi.key in (PT + '.__init__', PT + '._prepare'):
+            continue
+        calls = [c for c in ast.walk(fi.node) if isinstance(c, ast.Call) and isinstance(c.func, ast.Attribute) and c.func.attr == '_prepare']
+        if not calls:
+            continue
+        check.analysed(fi)
+        for c in calls:
+            n_sites += 1
+            recv = norm(c.func.value)
+            key = 'reprepare|%s|%s' % (fi.key, 'recv')
+            if inside:
+                check.holds(rule, site_of(fi, c), '_prepare drops the cached bound copies itself', key=key)
+                continue
+            # the innermost block that contains the call: the invalidation must be in the same block (same loop iteration)
+            blk = None
+            t = c
+            while getattr(t, '_parent', None) is not None:
+                par = t._parent
+                for field in ('body', 'orelse', 'finalbody'):
+                    b = getattr(par, field, None)
+                    if isinstance(b, list) and t in b:
+                        blk = b
+                if blk is not None:
+                    break
+                t = par
+            ok = False
+            for s in (blk or []):
+                for x in ast.walk(s):
+                    if isinstance(x, ast.Call) and isinstance(x.func, ast.Attribute) and x.func.attr == 'clear' and norm(x.func.value) == '%s.%s' % (recv, cache):
+                        ok = True
+                    if isinstance(x, ast.Attribute) and isinstance(x.ctx, ast.Store) and x.attr == cache and norm(x.value) == recv:
+                        ok = True
+                    if isinstance(x, ast.Delete) and any(isinstance(t_, ast.Attribute) and t_.attr == cache and norm(t_.value) == recv for t_ in x.targets):
+                        ok = True
+            if ok:
+                check.holds(rule, site_of(fi, c), '%s re-prepares %s and drops its cached bound copies (%s.%s)' % (fi.name, recv, recv, cache), key=key)
+            else:
+                check.violation(rule, site_of(fi, c), '%s re-prepares the existing translator %s but leaves its cache of bound copies (%s.%s) as it is: '
+                                'a method bound before this point keeps advertising the previous signature' % (fi.name, recv, recv, cache), key=key,
+                                witness="x = A(); x.m; annotate(a=int)(A.__dict__['m']); signature(x.m) must show a: int like signature(A().m)")
+    check.floor(rule, 're-preparation sites', n_sites, 1)
